@@ -46,41 +46,9 @@ claim("C06",
       BASE_NOTE + "Byte strings are modelled as code-point lists; case-insensitive comparison is ASCII lower-casing (bytes.lower).",
       "Lean 4 refinement proof (index loop = declarative walk; loop = find?-spec) + differential correspondence", "5 C06")
 claim("C07",
-      "Line-level theorems for every header line shape (header_line: name kept, value stripped, wire order; continuation_line; continuation_first_rejected; no_colon_rejected; empty_name_rejected) and first line shape (first_line_request / first_line_other / first_line_short, minorVersion_iff: exactly HTTP/1.<digit>), extractLines_nonempty and readPayload_errors_closed (every payload gives a result or PacketError). The composition over a whole rendered message (read_render) is NOT yet a theorem; it is decided by the oracle that compares the parsed result with the header list the generator wrote, and by correspondence on well-formed and single-defect corrupted messages.",
-      BASE_NOTE + "PARTIAL: read_render (whole-message composition of the line-level theorems through the blank-line scan) is covered by oracle + correspondence only. h11's maybe_extract_lines is modelled from its source.",
-      "Lean 4 proofs per line shape + closure theorem; property oracle (generator's own header list) and differential correspondence for whole messages", "5 C07")
-claim("C09",
-      "Theorem parseLines_records: for EVERY list of lines (any interleaving of sections incl. repeated headers, labels, sys lines, comments, blank lines, skipped parameters) a successful run of the model of _parse_file returns exactly specDb - the database defined line by line without parser state: a section exists iff it has a header, and holds in file order one record per sig line with its enclosing section (last header before it), the most recent label with its sys list, the structured signature of its text, the raw text and the 1-based line number. Corollaries record_iff_sig_line (record <-> sig line, both directions), recordAt_fields, len_eq_sig_lines, records_in_file_order. Tied to Database.load / iter_values / len by grammar-generated files judged against the model AND against the generator's own record list, the shipped p0f.fp, and every signature / label text through the structured-signature ops.",
-      BASE_NOTE + "PARTIAL: 'each structured signature denotes what its text denotes' is proved for option layouts and quirk lists (C18 dumpLayout_parse / dumpQuirks_parse) and for ranges (C10 parseTcpSig_ranges); the whole-signature parse/render round trip is decided by correspondence over the full grammars, not yet by a theorem. Texts are ASCII; universal-newline reading is modelled (pyLines).",
-      "Lean 4 refinement proof (parser state machine = stateless per-line specification, invariant by induction over the lines) + differential correspondence + generator oracle", "5 C09")
-claim("C10",
-      "Theorems parseLines_closed (for EVERY list of lines the model of _parse_file returns a database or ParsingError(n) with 1 <= n <= number of lines; IndexError and plain DatabaseError are unreachable - stepKind_error under the parser invariant), error_line_correct (the reported line is the first one the parser cannot accept: the lines before it load, and it fails in the state they lead to), load_closed (Database.load: success, ParsingError, or DatabaseError exactly for an unreadable file), blank_and_comment_ok, and range soundness parseTcpSig_ranges / parseMtuSig_range / parseTtl_range / parseWindow_range / parseOptionsField_range (whatever the parsers accept lies in the documented ranges, known keywords only, no quirk illegal for the version). Tied to the code by single-fault corruptions with generator-known faulty line, all sequences of <= 4 line kinds, unreadable paths, non-ASCII texts (category oracle) and corrupted signature texts.",
-      BASE_NOTE + "Texts compared with the model are ASCII; non-ASCII inputs are judged by the exception-category oracle only. open()/decoding failures are modelled as one 'unreadable' outcome.",
-      "Lean 4 invariant proof (error closure, error line, range soundness) + differential correspondence + fault-line oracle", "5 C10")
-claim("C11",
-      "Theorems over the state machine of public calls (apiStep / apiRun; the only state between calls is the live record map): failed_load_preserves, load_replaces (the result of a successful load is independent of what was loaded before - no accumulation) with load_result (= the database the file denotes, C09), load_idempotent, reader_old_or_new + reader_new_only_on_success (every observation during a load is the old or the new contents), unloaded_is_error_tcp/mtu/http + no_successful_load_stays_empty (before any successful load every fingerprint raises DatabaseError / PacketError, never 'no match'), apiRun_db and history_independent - for all histories, files and previous contents. Tied to the code by histories of loads (good A/B, the shipped file, a fault inserted at EVERY line, unreadable paths) and probes on one Database object while a reader snapshots the shared object at every line / call / return event (thorough: every bytecode) of the load.",
-      BASE_NOTE + "PARTIAL: preemption is abstracted to observation points inside the loading thread (bytecode boundaries in the thorough tier) - sound for CPython with the GIL, not for free-threaded builds; that the parser writes into a private RecordsDatabase is a fact of the code the model states and the reader checks, not something the theorem derives.",
-      "Lean 4 proofs over call histories (invariants by induction) + differential correspondence on histories with an injected reader", "5 C11")
-claim("C15",
-      "Theorems label_parse_dump (every four-part label text type:class:name:flavour without further colons - any class, spaces / punctuation, empty flavour - parses to exactly those fields and dumps back to exactly that text), parseLabel_dump_fixpoint (dump of any accepted label re-parses to the same label), candidates_iff (the candidates of a lookup are exactly the records of the requested kind and direction whose dumped label equals the text), candidates_error_iff / candidates_error_database (DatabaseError iff there is none), loaded_label_dump (a record loaded under a four-part label line dumps to that line's text). Tied to Label.parse/dump, Database.get_random and impersonate_mtu(raw_label=..) by label-text streams, generated databases with the same label across kinds and directions, and >= 40 seeded draws per record so that the set of returned records must equal the candidate set.",
-      BASE_NOTE + "'can return every such record' is about random.choice: the model gives the candidate list, the harness checks by repeated seeded draws that each candidate is returned (miss probability < 1e-16 per lookup). impersonate_tcp by label is exercised with C05.",
-      "Lean 4 round-trip and filter-characterisation proofs + differential correspondence with repeated seeded draws", "5 C15")
-claim("C16",
-      "Theorems tcpMatchObj_eq / findLoopObj_eq / fingerprintTcpObj_eq: the model that threads the per-call TCPPacketSignature object with its window-multiplier cache through tcp_signatures_match and the record loop exactly as the code does (cache filled lazily, only in the mss*N / mtu*N window branches) returns, for every database, packet signature, record order and max_dist, what the cache-free definitions of C01 / C02 / C17 return, keeps the cache coherent and never changes a field; repeated_match_stable; across calls history_independent / repeat_stable / only_load_changes / apiRun_db (C11): a result depends on the history only through the live database. Tied to the code by call histories over input pools (same MSS / header shape, different windows and peer MSS), every input raw / as parsed Packet / twice on the same object, interleaved with impersonations and reloads of three databases; every step compared with the pure model.",
-      BASE_NOTE + "Interpretive choice: TCPPacketSignature.received (receive time) is clock metadata, not part of the result. Module-level state a change might introduce (caches keyed by anything) is not in the model by construction - it is what the history correspondence is there to expose.",
-      "Lean 4 refinement proof (cache-threading model = pure model, by induction over the record list) + differential correspondence on call histories", "5 C16")
-claim("C12",
-      "Theorems call_frame / impMtu_world_frame / run_frame over an explicit store of caller objects (packets as option list + everything else, buffers as bytes + consumed offset, the database): every call except impersonate_mtu leaves the store unchanged, impersonate_mtu changes only the option list of the packet it is given, lifted to arbitrary call sequences; db_untouched (no call but load alters a record, label or signature; from C11) and C08's impMtu_frame for the content of the rewritten option list. DECISIVE for Python aliasing: a snapshot oracle on the real objects - before every call a field-level snapshot (layer identities, explicit fields deep-copied, overloaded fields, raw caches) plus a Scapy deep copy; afterwards fields, identities, bytes(packet), packet.command(), buffer bytes / offsets / extractability and the identity + repr of every database record / label / signature must be unchanged, and impersonate_tcp's result must share no layer object with its input.",
-      BASE_NOTE + "PARTIAL: that pyp0f works on copies (copy_packet(assemble=True), copy_buffer, fresh layers) is stated by the model and checked by the snapshots, not derived; aliasing inside Scapy is outside the model.",
-      "Lean 4 frame theorems over an explicit object store + before/after deep-snapshot oracle on the real objects across random call sequences", "5 C12")
-claim("C14",
-      "Theorems about impTcp, the Lean model of impersonate_tcp, for every signature, base packet, parameters and every outcome of the random draws: imp_keeps_identity (addresses, ports, IP version), imp_keeps_syn_nature (SYN bit always, ACK bit unless ack+/ack-; via an exhaustive kernel-evaluated table of the 9-bit flag operations), imp_seq_nonzero, and per wildcardable field the hint rules with admissibility defined by what the matcher needs - MssAdmissible (fits 16 bits; with mss*N: MSS >= 100 and MSS*N <= 65535) and WsAdmissible (a byte, > 14 exactly with exws), proved equivalent to the code's range tests (mss_inRange_iff, ws_inRange_iff): impOption_mss / impOption_ws (fixed value wins; admissible hint kept; otherwise a drawn value that is itself admissible), impOption_ts1 / impOption_ts2, lifted to the whole option list (out_fixed_overrides, out_hint_kept), imp_window_any, imp_ip_id, imp_payload. The model is tied to the code by EXPLAINING every run of the real impersonate_tcp: the drawn values are read off the output, checked against the ranges the model draws from, and the model must then rebuild the output byte for byte (checksums excepted) - over signatures crossing every wildcardable field with admissible / inadmissible / absent hints. A python oracle re-checks the identity clauses on the bytes.",
-      BASE_NOTE + "Hints are what Scapy's dissection of the base reports (dict(tcp.options), integers only), computed by the harness with Scapy. The byte layout of the packet Scapy builds is modelled (OutPkt.toBytes) and checked by the byte-for-byte explanation.",
-      "Lean 4 proofs over the model of the impersonator (all choice outcomes) + run-explanation correspondence (byte-for-byte) + identity oracle", "5 C14")
-claim("C05",
-      "Theorem imp_exact_partial: for every signature in the class Supported (plain option layouts of nop / mss / ws / sok / ts filling a multiple of four bytes, any olen that is a multiple of 4, every window form except mtu*N, wildcard or fixed MSS / scale / payload class, ttl / ttl-, and any quirk set a packet of that shape and version can have), every Admissible base packet of a compatible IP version, every extra_hops below the signature TTL and max_dist, and EVERY outcome of the random draws inside the ranges the impersonator draws from (Choices / choicesOk), the model of impersonate_tcp returns a packet - no exception - whose extracted signature (extractOut: IP / TCP header quirks from the fields, option quirks and values from the verified option walk over the bytes Scapy's encoding produces) matches the requested signature EXACTLY under the C01-verified matcher, at TTL distance extra_hops. Built from run_quirks (all 17 quirks equal after the family mask: tcp_header_quirks, ip_header_quirks via exhaustive kernel-evaluated flag tables, run_opt_quirks via parseOptsGo_encode_list), plain_options / plain_option_facts (each option well formed and carrying an admissible value), windowMult_of_mss. Non-vacuity: exSig_supported / exBase_admissible / exChoices_ok and the instantiated example. Outside Supported (eol+n, sack, ?n kinds) and for the tie to the code: every run of the REAL impersonate_tcp on signatures derived backwards from random segments (satisfiable by construction) and all shipped signatures is (a) judged by the Lean matcher on bytes(out), by tcp_signatures_match and by fingerprint_tcp against a one-record database - must be exact at distance extra_hops, and (b) explained by the model: in-range choices read off the output must rebuild it byte for byte, and extractOut must agree with decoding those bytes.",
-      BASE_NOTE + "PARTIAL: the theorem covers the class Supported; layouts with EOL padding, SACK and unknown kinds, and the byte-level step from extractOut to decoding toBytes, are decided by the oracle and the explanation correspondence only. Open findings F13, F13b, F16b, F17 (outside Supported) are listed in known_findings.json; F27 was found by this check and repaired.",
-      "Lean 4 proof over all choice outcomes of the impersonator model (exact match for a decidable class of signatures) + property oracle on real outputs + run-explanation correspondence (byte-for-byte)", "5 C05")
+      "Theorem read_render (whole message): for every first line the line reader accepts, every list of header lines name ':' value (name non-empty, without colon or LF, not starting with SP / HT; value without LF), either blank-line form, any body and ANY per-line choice of CRLF or bare LF terminators, read_payload returns the direction and minor version of the first line and exactly the headers - in wire order, names as sent, values stripped; built from scan_render / extractLines_render (h11's blank-line scan returns exactly the lines, by induction over the line list) and readHeaders_sent. Per-line theorems for every line shape: header_line, continuation_line (folded lines appended with CRLF SP), continuation_first_rejected, no_colon_rejected, empty_name_rejected, first_line_request / first_line_other / first_line_short, minorVersion_iff (exactly HTTP/1.<digit>), extractLines_nonempty, readPayload_errors_closed (every payload gives a result or PacketError). Tied to the code by the generator's own header list as oracle and by correspondence on well-formed and single-defect corrupted messages.",
+      BASE_NOTE + "Folded continuation lines are covered by the per-line theorem and correspondence, not by the whole-message theorem. h11's maybe_extract_lines is modelled from its source.",
+      "Lean 4 proof (blank-line scan by induction over lines, composed with per-line theorems) + closure theorem; generator oracle and differential correspondence", "5 C07")
 
 ALL = [f"C{i:02d}" for i in range(1, 19)]
 checks = []
